@@ -760,6 +760,48 @@ def probe(ctx):
             else:
                 ctx.probe_ok(('probe-width',) + c.ntkey)
     probe_choice_contract(ctx)
+    from .c03 import buffer_reuse_probe
+    buffer_reuse_probe(ctx, reuse_routines(), 'C11')
+
+
+
+# ---------------------------------------------------------------------------
+# input class "buffer reuse across calls" (helpers shared with harness/c03.py): measure_quantum_vector and the records of MeasureGate
+# ---------------------------------------------------------------------------
+def reuse_routines():
+    import numqi
+    from .c03 import _np, _leaves
+    st = numqi.sim.state
+    rng = np.random.default_rng(20260930)
+    def cst(n):
+        v = rng.normal(size=2 ** n) + 1j * rng.normal(size=2 ** n)
+        return v / np.linalg.norm(v)
+    def measured_ok(psi, subset, n, bitstr, prob, q2):
+        want = born(psi, subset, n)
+        if np.asarray(prob).shape != want.shape or not np.all(np.abs(np.asarray(prob) - want) <= 1e-10):
+            return False
+        if len(bitstr) != len(subset) or any(int(b) not in (0, 1) for b in bitstr):
+            return False
+        proj = np.where(projector_mask(subset, bitstr, n), psi, 0)
+        nrm = np.linalg.norm(proj)
+        return nrm > 0 and close(q2, proj / nrm, 1e-10)
+    out = []
+    for n, subset in [(1, (0,)), (2, (1,)), (3, (0, 2))]:
+        out.append((f'measure_quantum_vector[n={n},index={subset}]', 'numpy', [((cst(n), 11), (cst(n), 12))],
+                    (lambda psi, seed, subset=subset: st.measure_quantum_vector(psi, subset, seed=seed)),
+                    (lambda args, r, subset=subset, n=n: measured_ok(args[0], subset, n, *r))))
+    # the records of a MeasureGate: held by the caller across the next application of the same circuit / of another circuit of the same size
+    for n, subset in [(1, (0,)), (2, (0,)), (3, (1, 2))]:
+        circs, gates = [], []
+        for k in range(2):
+            c = numqi.sim.Circuit(); gates.append(c.measure(subset, seed=21 + k)); circs.append(c)
+        def f(i, psi, circs=circs, gates=gates):
+            final = circs[i].apply_state(psi)
+            return (gates[i].bitstr, gates[i].probability, final)
+        prop = (lambda args, r, subset=subset, n=n: measured_ok(args[1], subset, n, *r))
+        out.append((f'MeasureGate.record[n={n},index={subset}; one gate, two states]', 'numpy', [((0, cst(n)), (0, cst(n)))], f, prop))
+        out.append((f'MeasureGate.record[n={n},index={subset}; two gates interleaved]', 'numpy', [((0, cst(n)), (1, cst(n)))], f, prop))
+    return out
 
 
 def probe_choice_contract(ctx):
@@ -810,6 +852,9 @@ def replay(ctx, payload):
         c.ind1 = 0 if isinstance(c.res, str) else (int(''.join(str(int(b)) for b in c.res[0]), 2) if len(c.res[0]) else 0)
         c.ntkey = ('replay',)
         _CACHE['m'], _CACHE['c'] = [c], []
+    elif fn == 'buffer-reuse':
+        from .c03 import replay_buffer_reuse
+        return replay_buffer_reuse(r, reuse_routines(), 'C11')
     elif fn == 'Circuit.apply_state with MeasureGate':
         # circuits are regenerated from the seed of the run that recorded them
         ctx2 = common.Ctx('C11', payload.get('tier', 'quick'), payload.get('seed', 0))
